@@ -418,7 +418,7 @@ def _fold_table(eng, v) -> Dict[str, Tuple[str, bool]]:
 UNIMPLEMENTED_EXTENSIONS = {"b64"}  # header parameters that change processing and are implemented by a dedicated path only
 
 
-def r15_3(ctx) -> None:
+def r15_3(ctx, family: Optional[str] = None) -> None:
     eng = ctx.eng
     P = eng.prog
     F = eng.folder
@@ -440,17 +440,18 @@ def r15_3(ctx) -> None:
         ctx.check(not diff, "R15.3", None, None, name, f"{name} differs from the RFC table: {diff}", f"{len(want)} parameters with validators and required flags",
                   construct=name)
     cmp("JWS_HEADER_REGISTRY", _fold_table(eng, F.module_value(regm, "JWS_HEADER_REGISTRY")), T.JWS_HEADER)
-    cmp("JWE_HEADER_REGISTRY", _fold_table(eng, F.module_value(regm, "JWE_HEADER_REGISTRY")), T.JWE_HEADER)
+    if family != "jws":
+        cmp("JWE_HEADER_REGISTRY", _fold_table(eng, F.module_value(regm, "JWE_HEADER_REGISTRY")), T.JWE_HEADER)
     cmp("JWSRegistry.default_header_registry", _fold_table(eng, F.class_attr(P.cls(REGS[0]), "default_header_registry")), T.JWS_HEADER)
     cmp("rfc7797 JWSRegistry.default_header_registry", _fold_table(eng, F.class_attr(P.cls(REGS[2]), "default_header_registry")), T.RFC7797_HEADER)
-    for cname, want in T.ALG_HEADERS.items():
+    for cname, want in (T.ALG_HEADERS.items() if family != "jws" else ()):
         cs = [c for c in P.classes.values() if c.name == cname]
         if len(cs) != 1:
             raise AnalysisError(f"class {cname} not found")
         cmp(f"{cname}.more_header_registry", _fold_table(eng, F.class_attr(cs[0], "more_header_registry")), want)
     # models without algorithm-specific parameters have an empty table
     km = P.cls("rfc7516.models:KeyManagement")
-    for c in km.all_subclasses():
+    for c in (km.all_subclasses() if family != "jws" else ()):
         if c.name in T.ALG_HEADERS or not any(m in c.methods for m in ("encrypt_cek", "compute_cek", "encrypt_agreed_upon_key")):
             continue
         v = F.class_attr(c, "more_header_registry")
@@ -717,10 +718,12 @@ def _fold_registry_merge(ctx, cls, default_table):
     return problems
 
 
-def r15_5(ctx) -> None:
+def r15_5(ctx, family: Optional[str] = None) -> None:
     eng = ctx.eng
     P = eng.prog
     for rname, default in ((REGS[0], "self.default_header_registry"), (REGS[1], "JWE_HEADER_REGISTRY")):
+        if (family == "jws" and rname == REGS[1]) or (family == "jwe" and rname == REGS[0]):
+            continue
         init = P.cls(rname).lookup("__init__")
         if init is None:
             raise AnalysisError(f"{rname}.__init__ vanished")
